@@ -30,6 +30,16 @@ def check(ck):
     r02_4(ck)
     r02_5(ck, sa)
     r02_6(ck, sa)
+    from . import c01, c09
+    ck.shared('R02.7', 'a process is scheduled from the moment it enters '
+              'the simulation until it leaves: every process a structural '
+              'update creates is reported to the engine, front entries of '
+              'processes that left are dropped in every iteration (a new '
+              'process at the same path starts afresh), and what one '
+              'scheduler iteration collected is not acted on again in the '
+              'next',
+              lambda c: c01.r01_5(c, sa.rf), lambda c: c01.r01_14(c, sa.rf),
+              c09.r09_9)
 
 
 def entry_time_at_start(st, key):
@@ -178,6 +188,36 @@ def r02_2(ck):
                         atom[0] in ('falsy',) or (
                             atom[0] == '==' and ('0' in atom[1:]))):
                     upd_ok = True
+    # the tests apply to every entry: nothing in the loop skips one (a test
+    # of membership in process_paths skips nothing when front entries leave
+    # with their process: every key of front is then a key of process_paths)
+    from .c01 import front_leaves_with_process
+    subset = front_leaves_with_process(
+        ck.fn('Engine._delete_path', 'core.engine'))
+
+    def vacuous(atoms):
+        return subset and atoms and all(
+            a[0] in ('in', 'notin') and a[2] == 'self.process_paths'
+            for a in atoms)
+    ccfg = cfg_of(cc.node)
+    for loop in loops:
+        entry = ccfg.loops[id(loop)]['body_entry']
+        for a in A.walk_no_nested(loop):
+            if isinstance(a, (ast.Assert, ast.Raise)):
+                extra = ccfg.guards(ccfg.node(a)) - ccfg.guards(entry)
+                if isinstance(a, ast.Raise):
+                    continue
+                ck.require(not extra or vacuous(extra), 'R02.2', cc, a,
+                           'the completion test applies to every front '
+                           'entry',
+                           'the completion test is skipped for entries '
+                           'under %s: a stale entry goes unnoticed'
+                           % sorted(extra), a)
+            if isinstance(a, ast.Continue) and not vacuous(
+                    ccfg.guards(ccfg.node(a)) - ccfg.guards(entry)):
+                ck.fail('R02.2', cc, a,
+                        'front entries are skipped by _check_complete: a '
+                        'stale or unfinished entry goes unnoticed', a)
     ck.require(time_ok, 'R02.2', cc, cc.node.name,
                "every entry's time must equal the clock",
                "_check_complete no longer asserts entry['time'] == "
